@@ -10,6 +10,13 @@ from . import lib
 OPEN = "([{<ABCDEFGHIJKLMNOPQRSTUVWXYZ"
 CLOSE = ")]}>abcdefghijklmnopqrstuvwxyz"
 LETTERS = "ACGU"
+ODD_LETTERS = "?NnXTt"      # placeholders the library itself writes ('?' for a residue missing at a chain break), IUPAC N, DNA
+
+
+def _sequence(rng, n):
+    """A sequence over ACGU; every seventh one also carries letters beyond them."""
+    odd = rng.random() < 1 / 7
+    return [rng.choice(ODD_LETTERS) if odd and rng.random() < 0.2 else rng.choice(LETTERS) for _ in range(n)]
 
 
 def gen_matchings(maxn, scratch):
@@ -95,7 +102,7 @@ def random_cases(count, seed, *, nmin=10, nmax=120, tag="r", ladders=True, stems
             if max_component(pairs)[0] > 30:
                 pairs = []
         cases.append({"id": f"{tag}{seed}-{k}", "kind": "bp", "n": n, "pairs": pairs,
-                      "seq": [rng.choice(LETTERS) for _ in range(n)]})
+                      "seq": _sequence(rng, n)})
     return cases
 
 
@@ -140,7 +147,7 @@ def knotted_cases(count, seed, *, max_comp=7, tag="k"):
         pairs = random_structure(rng, n, ladder=rng.choice([0, 0, 2, 3, 4]), stems=rng.randint(3, 9),
                                  maxlen=rng.randint(1, 4))
         cases.append({"id": f"{tag}{seed}-{k}", "kind": "bp", "n": n, "pairs": pairs,
-                      "seq": [rng.choice(LETTERS) for _ in range(n)]})
+                      "seq": _sequence(rng, n)})
     return cases
 
 
@@ -418,7 +425,7 @@ def db_cases_random(count, seed, *, nmax=100):
             s[i - 1] = OPEN[typ[a]]
             s[j - 1] = CLOSE[typ[a]]
         cases.append({"id": f"dr{seed}-{k}", "kind": "db", "db": s,
-                      "seq": [rng.choice(LETTERS) for _ in range(n)]})
+                      "seq": _sequence(rng, n)})
     return cases
 
 
